@@ -5,6 +5,7 @@ import (
 	"go/ast"
 	"go/token"
 	"go/types"
+	"golang.org/x/tools/go/packages"
 	"sort"
 	"strings"
 )
@@ -53,6 +54,13 @@ func (c *Ctx) collectFlagRegs() (regs []*flagReg, others int) {
 						return true
 					}
 					if r := c.flagRegOf(info, call); r != nil {
+						if r.vobj == nil {
+							// registration written once in a helper and fed from a table of option records
+							if inst := c.flagRegsThroughHelper(p, fd, call); len(inst) > 0 {
+								regs = append(regs, inst...)
+								return true
+							}
+						}
 						r.fn = curFn
 						regs = append(regs, r)
 					} else if fn := calleeOf(info, call); fn != nil && isPflagSet(fn) && isValueRegistrar(fn.Name()) {
@@ -370,4 +378,126 @@ func (c *Ctx) flagShadow(regs []*flagReg) {
 		}
 	}
 	c.Trivial("FLAGDEF-SHADOW", "scan", token.NoPos, fmt.Sprintf("%d registrations compared with the persistent options of their ancestors", n))
+}
+
+// flagRegsThroughHelper: the registration call sits in helper fd and takes its storage, name and
+// default from the fields of the records the helper ranges over (a variadic/slice parameter of a
+// struct type). One registration is produced per record literal at every call of the helper.
+func (c *Ctx) flagRegsThroughHelper(p *packages.Package, fd *ast.FuncDecl, reg *ast.CallExpr) []*flagReg {
+	info := p.TypesInfo
+	helper, _ := info.Defs[fd.Name].(*types.Func)
+	if helper == nil {
+		return nil
+	}
+	fn := calleeOf(info, reg)
+	name := fn.Name()
+	defIdx := 2
+	if strings.HasSuffix(name, "P") {
+		defIdx = 3
+	}
+	// the record variable: range value over a parameter
+	var rec types.Object
+	var recParam int = -1
+	for _, a := range stackTo(fd.Body, reg) {
+		if rs, ok := a.(*ast.RangeStmt); ok && rs.Value != nil {
+			for i := 0; ; i++ {
+				po := paramObj(info, fd, i)
+				if po == nil {
+					break
+				}
+				if identObj(info, rs.X) == po {
+					rec, recParam = identObj(info, rs.Value), i
+				}
+			}
+		}
+	}
+	if rec == nil {
+		return nil
+	}
+	fieldOf := func(e ast.Expr) string {
+		if sel, ok := unparen(e).(*ast.SelectorExpr); ok && identObj(info, sel.X) == rec {
+			return sel.Sel.Name
+		}
+		return ""
+	}
+	fStore, fName, fDef := fieldOf(reg.Args[0]), fieldOf(reg.Args[1]), fieldOf(reg.Args[defIdx])
+	if fStore == "" || fName == "" || fDef == "" {
+		return nil
+	}
+	// the command: receiver of .Flags()/.PersistentFlags() is a parameter
+	cmdParam := -1
+	persistent := false
+	if sel, ok := unparen(reg.Fun).(*ast.SelectorExpr); ok {
+		if inner, ok := unparen(sel.X).(*ast.CallExpr); ok {
+			if s2, ok := unparen(inner.Fun).(*ast.SelectorExpr); ok {
+				persistent = s2.Sel.Name == "PersistentFlags"
+				for i := 0; ; i++ {
+					po := paramObj(info, fd, i)
+					if po == nil {
+						break
+					}
+					if identObj(info, s2.X) == po {
+						cmdParam = i
+					}
+				}
+			}
+		}
+	}
+	var out []*flagReg
+	for _, f := range p.Syntax {
+		var cur string
+		for _, d := range f.Decls {
+			d2, ok := d.(*ast.FuncDecl)
+			if ok {
+				cur = d2.Name.Name
+			}
+			ast.Inspect(d, func(n ast.Node) bool {
+				call, ok := n.(*ast.CallExpr)
+				if !ok || calleeOf(info, call) != helper {
+					return true
+				}
+				var recs []ast.Expr
+				for i, a := range call.Args {
+					if i >= recParam {
+						recs = append(recs, a)
+					}
+				}
+				for _, re := range recs {
+					lit, ok := unparen(re).(*ast.CompositeLit)
+					if !ok {
+						continue
+					}
+					flds := c.litFields(info, lit)
+					r := &flagReg{call: call, method: name, fn: cur, persistent: persistent}
+					if cmdParam >= 0 && cmdParam < len(call.Args) {
+						r.cmdVar = types.ExprString(call.Args[cmdParam])
+					}
+					if st, ok := flds[fStore]; ok {
+						if u, ok := unparen(st).(*ast.UnaryExpr); ok && u.Op == token.AND {
+							r.vobj = identObj(info, u.X)
+							r.vname = types.ExprString(u.X)
+						}
+					}
+					if nm, ok := flds[fName]; ok {
+						if tv, ok := info.Types[nm]; ok && tv.Value != nil {
+							r.flag = strings.Trim(tv.Value.ExactString(), `"`)
+						}
+					}
+					if df, ok := flds[fDef]; ok {
+						if tv, ok := info.Types[df]; ok && tv.Value != nil {
+							r.def = tv.Value.ExactString()
+							r.isCons = true
+						} else {
+							r.def = c.canon(info, df, nil)
+						}
+					}
+					// position of the record itself, so that the order of registrations is the order of the table
+					r.call = &ast.CallExpr{Fun: call.Fun, Lparen: lit.Pos(), Args: call.Args, Rparen: lit.End()}
+					out = append(out, r)
+				}
+				return true
+			})
+		}
+	}
+	return out
 }
